@@ -616,6 +616,16 @@ func init() {
 	}
 	theory["(*cosmossdk.io/errors.Error).Wrapf"] = theory["(*cosmossdk.io/errors.Error).Wrap"]
 	theory["fmt.Errorf"] = func(x *Exec, f *Frame, st *State, c *CallInfo) Val { return nonNilErr(x, st, "errorf") }
+	// grpc status errors: nil exactly for codes.OK (0)
+	grpcErr := func(x *Exec, f *Frame, st *State, c *CallInfo) Val {
+		e := x.freshTerm("grpcerr", SErr)
+		if code := c.T(0); code != nil && code.Sort == SInt {
+			st.assume(Eq(Eq(e, ErrNil), Eq(code, IntLit(0))))
+		}
+		return e
+	}
+	theory["google.golang.org/grpc/status.Errorf"] = grpcErr
+	theory["google.golang.org/grpc/status.Error"] = grpcErr
 	theory["errors.New"] = func(x *Exec, f *Frame, st *State, c *CallInfo) Val { return nonNilErr(x, st, "errnew") }
 	theory["fmt.Sprintf"] = func(x *Exec, f *Frame, st *State, c *CallInfo) Val {
 		return x.sprintf(st, c)
@@ -1035,8 +1045,8 @@ func init() {
 		s := c.T(0)
 		e := x.freshTerm("hexerr", SErr)
 		st.assume(Eq(Eq(e, ErrNil), UF("hex_ok", SBool, s)))
+		// (decoding is not injective: it accepts both letter cases; only encode-then-decode is the identity)
 		b := UF("bytes_of_hex", SBytes, s)
-		st.assume(Implies(UF("hex_ok", SBool, s), Eq(UF("hex_of_bytes", SStr, b), s)))
 		return &TupleVal{[]Val{b, e}}
 	}
 }
@@ -1129,6 +1139,25 @@ func init() {
 		o := x.newObj(nil, "abi_event")
 		st.mem[o] = ov
 		return &TupleVal{[]Val{&PtrVal{Obj: o}, e}}
+	}
+	// Ethereum address conversions: functions of their argument (20-byte cropping / hex decoding not interpreted)
+	theory["github.com/ethereum/go-ethereum/common.BytesToAddress"] = func(x *Exec, f *Frame, st *State, c *CallInfo) Val {
+		if a := c.T(0); a != nil {
+			return UF("bytes_to_addr", SBytes, a)
+		}
+		return x.freshTerm("ethaddr", SBytes)
+	}
+	theory["github.com/ethereum/go-ethereum/common.HexToAddress"] = func(x *Exec, f *Frame, st *State, c *CallInfo) Val {
+		if a := c.T(0); a != nil {
+			return UF("hex_to_addr", SBytes, a)
+		}
+		return x.freshTerm("ethaddr", SBytes)
+	}
+	theory["(github.com/ethereum/go-ethereum/common.Address).Bytes"] = func(x *Exec, f *Frame, st *State, c *CallInfo) Val {
+		if a := c.T(0); a != nil {
+			return a
+		}
+		return x.freshTerm("ethaddr", SBytes)
 	}
 	theory["(github.com/ethereum/go-ethereum/common.Address).Hex"] = func(x *Exec, f *Frame, st *State, c *CallInfo) Val {
 		if a := c.T(0); a != nil {
